@@ -332,8 +332,9 @@ func (p *h3pkg) sizeOverhead(fd *ast.FuncDecl) (int, error) {
 // What the errHeaderTooLarge branch DOES is read off a symbolic execution of its body (symwalk.go) that follows
 // same-package helpers with their parameters bound to the arguments — so it does not matter whether the reset and
 // the 431 answer are written inline or extracted into helpers, nor what those helpers are called:
-//   tooLarge        = the single ErrCode… constant handed to a CancelRead call the branch reaches ("" if none / several)
-//   tooLargeRejects = the branch reaches WriteHeader(http.StatusRequestHeaderFieldsTooLarge) (or the literal 431)
+//
+//	tooLarge        = the single ErrCode… constant handed to a CancelRead call the branch reaches ("" if none / several)
+//	tooLargeRejects = the branch reaches WriteHeader(http.StatusRequestHeaderFieldsTooLarge) (or the literal 431)
 func errMapping(pkg *h3pkg, fd *ast.FuncDecl) (def, qp, tooLarge string, tooLargeRejects bool, err error) {
 	branchEffects := func(body ast.Node) (code string, sends431 bool) {
 		codes := map[string]bool{}
